@@ -30,6 +30,66 @@ let str_cps (l:n list) = String.concat "." (List.map str_n l)
 
 let str_token (t:token) = str_n (tok_code t.tk) ^ ":" ^ str_cps t.tv
 
+
+(* ---- numbers and S-expressions ---- *)
+let pos_of_z = function Zpos p -> p | _ -> XH
+let str_num (x:num) = match x with
+  | NInt z -> "i" ^ str_z z
+  | NFlt q -> let q = qred q in "f" ^ str_z q.qnum ^ "/" ^ str_pos q.qden
+  | NNonFinite -> "nan"
+let num_of_string (s:string) : num =
+  if s = "nan" then NNonFinite else
+  let body = String.sub s 1 (String.length s - 1) in
+  if s.[0] = 'i' then NInt (z_of_string body)
+  else match String.split_on_char '/' body with
+    | [a;b] -> NFlt (qred { qnum = z_of_string a; qden = pos_of_z (z_of_string b) })
+    | _ -> failwith "num"
+let rec str_expr (e:expr) = match e with
+  | Const x -> "(c " ^ str_num x ^ ")"
+  | Var v -> "(v " ^ str_n v ^ ")"
+  | Un (u, c) -> "(" ^ (match u with UNeg -> "neg" | UFact -> "fact" | USgn -> "sgn") ^ " " ^ str_expr c ^ ")"
+  | Bin (k, l, r) -> "(" ^ (match k with KEq -> "eq" | KAdd -> "add" | KSub -> "sub" | KMul -> "mul" | KDiv -> "div" | KPow -> "pow") ^ " " ^ str_expr l ^ " " ^ str_expr r ^ ")"
+let tokens_of (s:string) : string list =
+  let b = Buffer.create 16 in let out = ref [] in
+  let flush () = if Buffer.length b > 0 then (out := Buffer.contents b :: !out; Buffer.clear b) in
+  String.iter (fun c -> match c with
+    | '(' | ')' -> flush (); out := String.make 1 c :: !out
+    | ' ' -> flush ()
+    | _ -> Buffer.add_char b c) s; flush (); List.rev !out
+let rec read (ts:string list) : expr * string list = match ts with
+  | "(" :: "c" :: x :: ")" :: r -> (Const (num_of_string x), r)
+  | "(" :: "v" :: x :: ")" :: r -> (Var (n_of_int (int_of_string x)), r)
+  | "(" :: op :: r ->
+    (match op with
+     | "neg" | "fact" | "sgn" -> let (c, r) = read r in
+        let u = (match op with "neg" -> UNeg | "fact" -> UFact | _ -> USgn) in
+        (match r with ")" :: r -> (Un (u, c), r) | _ -> failwith "un")
+     | _ -> let k = (match op with "eq" -> KEq | "add" -> KAdd | "sub" -> KSub | "mul" -> KMul | "div" -> KDiv | "pow" -> KPow | _ -> failwith ("op " ^ op)) in
+        let (a, r) = read r in let (b, r) = read r in
+        (match r with ")" :: r -> (Bin (k, a, b), r) | _ -> failwith "bin"))
+  | _ -> failwith "read"
+let expr_of (ws:string list) : expr = fst (read (tokens_of (String.concat " " ws)))
+let str_path (p:path) = "[" ^ String.concat "" (List.map (function L -> "L" | R -> "R") p) ^ "]"
+let path_of (s:string) : path =
+  let l = ref [] in String.iter (fun c -> match c with 'L' -> l := L :: !l | 'R' -> l := R :: !l | _ -> ()) s; List.rev !l
+let str_exn = function ValueError -> "ValueError" | InvalidSyntax -> "InvalidSyntax" | InvalidExpression -> "InvalidExpression"
+  | OutOfTokens -> "OutOfTokens" | UnexpectedBehavior -> "UnexpectedBehavior" | TrailingTokens -> "TrailingTokens"
+  | IndexError -> "IndexError" | KeyError -> "KeyError" | OutOfFuel -> "OutOfFuel"
+let str_rexn = function RValueError -> "ValueError" | RAssertion -> "AssertionError" | RAttribute -> "AttributeError"
+  | RNotImplemented -> "NotImplementedError" | ROther -> "Other" | RInexact -> "INEXACT"
+let rule_of (name:string) (opt:string) : rule = match name with
+  | "AS" -> RAssoc | "CS" -> RComm (opt = "1") | "CA" -> RConst | "DF" -> RFactor (opt = "1") | "DM" -> RDistr
+  | "MI" -> RInverse | "RS" -> RRestate | "VM" -> RVarMul | "BM" -> RBalanced | _ -> failwith "rule"
+let rec split_at (sep:string) (l:string list) : string list * string list = match l with
+  | [] -> ([], []) | x :: r -> if x = sep then ([], r) else let (a, b) = split_at sep r in (x :: a, b)
+let str_onum = function Some n -> str_num n | None -> "-"
+let str_ovar = function Some v -> str_n v | None -> "-"
+let str_term (t:termex) = str_onum t.t_coef ^ "," ^ str_ovar t.t_var ^ "," ^ str_onum t.t_exp
+let onum_of s = if s = "-" then None else Some (num_of_string s)
+let ovar_of s = if s = "-" then None else Some (n_of_int (int_of_string s))
+let term_of (s:string) : termex = match String.split_on_char ',' s with
+  | [a;b;c] -> { t_coef = onum_of a; t_var = ovar_of b; t_exp = onum_of c } | _ -> failwith "term"
+
 let handle (line:string) : string =
   match words line with
   | "TOK" :: ex :: cps ->
@@ -37,6 +97,57 @@ let handle (line:string) : string =
      | LOk ts -> "OK " ^ String.concat " " (List.map str_token ts)
      | LErr c -> "ERR " ^ str_n c
      | LFuel -> "FUEL")
+  | "PARSE" :: cps ->
+    (match parse (cps_of cps) with
+     | Ok e -> "OK " ^ str_expr e
+     | Raises x -> "EXC " ^ str_exn x)
+  | "PRINT" :: ws ->
+    (match show_top (expr_of ws) with Some s -> "OK " ^ String.concat " " (List.map str_n s) | None -> "NONE")
+  | "EVAL" :: ws ->
+    let (ews, bws) = split_at ";" ws in
+    let e = expr_of ews in
+    let binds = List.map (fun b -> match String.split_on_char '=' b with
+      | [v; x] -> (int_of_string v, x) | _ -> failwith "bind") bws in
+    let rho (v:n) : num option =
+      (match List.assoc_opt (int_of_n v) binds with Some "none" -> None | Some x -> Some (num_of_string x) | None -> None) in
+    (match eval rho e with EOk x -> "OK " ^ str_num x | EInexact -> "INEXACT" | EValueError -> "EXC ValueError")
+  | "RULE" :: name :: opt :: ws ->
+    let e = expr_of ws in
+    let r = rule_of name opt in
+    let outs = List.map (fun p ->
+      if can_apply e p r then
+        (match apply e p r with
+         | ROk (e', p') -> "1 " ^ str_path p' ^ " " ^ str_expr e'
+         | RRaises x -> "1 EXC " ^ str_rexn x)
+      else "0") (inorder_paths e []) in
+    String.concat " | " outs
+  | "APPLY" :: name :: opt :: pth :: ws ->
+    let e = expr_of ws in
+    let r = rule_of name opt in
+    let p = path_of pth in
+    if can_apply e p r then
+      (match apply e p r with
+       | ROk (e', p') -> "1 " ^ str_path p' ^ " " ^ str_expr e'
+       | RRaises x -> "1 EXC " ^ str_rexn x)
+    else "0"
+  | "FIND" :: name :: opt :: ws ->
+    let e = expr_of ws in
+    let r = rule_of name opt in
+    let l = find_nodes r e in
+    let rec nat_int = function O -> 0 | S m -> 1 + nat_int m in
+    "OK " ^ (match find_node r e with Some p -> str_path p | None -> "-") ^ " " ^
+      String.concat " " (List.map (fun (i, p) -> string_of_int (nat_int i) ^ ":" ^ str_path p) l)
+  | "TERMEX" :: pp :: ws ->
+    (match get_term_ex (pp = "1") (expr_of ws) with Some t -> "OK " ^ str_term t | None -> "NONE")
+  | "FACTOR" :: x :: [] ->
+    "OK " ^ String.concat " " (List.map (fun (a, b) -> str_num a ^ ":" ^ str_num b) (factor (num_of_string x)))
+  | "FACTORADD" :: a :: b :: [] ->
+    (match factor_add_terms_ex (term_of a) (term_of b) with
+     | None -> "NONE"
+     | Some f -> "OK " ^ String.concat " " [str_num f.best; str_num f.f_left; str_num f.f_right; str_ovar f.f_var; str_onum f.f_exp;
+                                            str_onum f.l_exp; str_onum f.r_exp; str_ovar f.l_var; str_ovar f.r_var])
+  | "MAKETERM" :: c :: v :: e :: [] ->
+    (match make_term (num_of_string c) (ovar_of v) (onum_of e) with Some t -> "OK " ^ str_expr t | None -> "NONE")
   | _ -> "?"
 
 let () =
